@@ -164,6 +164,19 @@ func MX() []*descriptorpb.FileDescriptorProto {
 	nest.OneofField("o", "oe", 5, E(e1))
 	nest.Rep("e1s", 6, E(e1))
 
+	// a later sibling with nested declarations of its own (the flattened declaration order matters)
+	nest2 := f.Msg("Nest2")
+	q := nest2.Nested("Q")
+	shape := q.NestedEnum("Shape", "SHAPE_ZERO", 0, "SQUARE", 1, "CIRCLE", 4)
+	qr := q.Nested("R")
+	qr.Field("s", 1, E(shape))
+	q.Field("shape", 1, E(shape))
+	q.Field("r", 2, M(qr.Full()))
+	q.Field("back", 3, M(l2.Full()))
+	nest2.Field("q", 1, M(q.Full()))
+	nest2.Rep("shapes", 2, E(shape))
+	nest2.Field("e2", 3, E(e2))
+
 	ops := f.Msg("Ops")
 	ops.Field("i", 1, S(Int32))
 	ops.Field("s", 2, S(String))
